@@ -59,7 +59,32 @@ pub fn margin(out: &mut Out, got: f32, d: &D, extra: f64) {
 /// Away from kinks, max-pool ties and sigmoid saturation (where y(1-y) loses relative accuracy
 /// in single precision)?
 pub fn well_conditioned(cfg_layers: &[LCfg], tr: &Trace<f64>) -> bool {
-    if tr.kink < 1e-3 || tr.gap < 1e-3 {
+    well_conditioned_g(cfg_layers, tr, tr.gap)
+}
+
+/// The pool-tie margin of a network evaluated with dual numbers along a random direction in the
+/// space of all parameters and inputs: window elements that are the same local function (equal
+/// value and equal directional derivative, e.g. convolution outputs over a flat background) do
+/// not count as ties - the maximum is differentiable there.
+pub fn structural_gap(rng: &mut Rng, cfg: &NetCfg, params: &[P], x: &[f32]) -> f64 {
+    let mut dir = |v: f64| {
+        let mut t = D::var(v);
+        t.d = rng.f64_in(-1.0, 1.0);
+        t
+    };
+    let net: RNet<D> = RNet::build(cfg, params, &mut |_, _, _, v| dir(v as f64));
+    let mut xin = Val::<D>::from_f32(cfg.input, x);
+    for (k, t) in xin.d.iter_mut().enumerate() {
+        // the inputs are not variables of the parameter gradients: a fixed pseudo-direction
+        // would make equal pixels differ, so they stay constant
+        let _ = k;
+        t.d = 0.0;
+    }
+    net.forward(&xin).gap
+}
+
+pub fn well_conditioned_g(cfg_layers: &[LCfg], tr: &Trace<f64>, gap: f64) -> bool {
+    if tr.kink < 1e-3 || gap < 1e-3 {
         return false;
     }
     let sat = |act: Option<Act>, pre: &Val<f64>| -> bool { act == Some(Act::Sigmoid) && pre.d.iter().any(|v| *v > 6.0) || act == Some(Act::Tanh) && pre.d.iter().any(|v| v.abs() > 8.0) };
@@ -549,6 +574,12 @@ fn network_case(rng: &mut Rng, idx: u64, out: &mut Out) {
     if sparse {
         out.count("network_cases_with_exact_zeros_in_input_and_parameters", 1);
     }
+    // flat image regions: the input takes two values in runs, so that neighbouring windows of a
+    // convolution see identical data and max-pool windows hold structurally tied elements
+    let flat_regions = (idx / 11) % 6 == 4 && !cfg.input.is_flat();
+    if flat_regions {
+        out.count("network_cases_with_flat_input_regions", 1);
+    }
     for _ in 0..25 {
         let mut params = gen_params(&cfg, rng, -1.2, 1.2).unwrap();
         let mut x = random_input(rng, cfg.input);
@@ -558,11 +589,25 @@ fn network_case(rng: &mut Rng, idx: u64, out: &mut Out) {
             }
             sparsify_params(rng, &mut params, 0.2);
         }
+        if flat_regions {
+            let palette = [rng.f32_in(-1.5, 1.5), rng.f32_in(-1.5, 1.5)];
+            let mut cur = 0usize;
+            for v in x.iter_mut() {
+                if rng.chance(0.12) {
+                    cur = 1 - cur;
+                }
+                *v = palette[cur];
+            }
+        }
         let r: RNet<f64> = RNet::plain(&cfg, &params);
         let tr = r.forward(&Val::from_f32(cfg.input, &x));
         let pred = tr.output().values();
         let interior = !obj.probabilistic() || pred.iter().all(|p| *p > 0.02 && *p < 0.98);
-        if well_conditioned(&cfg.layers, &tr) && interior {
+        let gap = if flat_regions { structural_gap(rng, &cfg, &params, &x) } else { tr.gap };
+        if flat_regions && tr.gap < 1e-3 && gap >= 1e-3 {
+            out.count("instances_with_structurally_tied_pool_windows", 1);
+        }
+        if well_conditioned_g(&cfg.layers, &tr, gap) && interior {
             found = Some((params, x, pred));
             break;
         }
@@ -780,7 +825,7 @@ impl Monitor for C01 {
         vec![("layers", tier.pick(97_200, 1_555_200)), ("large_layers", tier.pick(3_000, 60_000)), ("networks", tier.pick(18_900, 302_400))]
     }
     fn rule(&self) -> &'static str {
-        "layers: case i -> (kind in conv/deconv/dense/pool, activation, geometry from the covering walk over the 108 (kernel 1..3, stride 1..3, padding 0..3, dilation 1..3) tuples per axis, channels/filters 1..3, extents up to 7, repetition-free weights/inputs/upstream gradient in [-1.5,1.5], in every fourth block of cases with 30-40% of them set to exactly 0); the layer's public backward(u, x, pre) is compared entry by entry with the forward-mode dual-number derivative of <u, post(x; theta)> w.r.t. every input element and every weight/bias/kernel element (|g - d| <= 16 * de + 1e-5 * m: de = first-order bound on the deviation of a correct f32 evaluation incl. the effect of forward rounding on the derivative factors, m = the same derivative on absolute values); the input gradient must have the input's shape. large_layers: the same layer-level check on layers that are large in one direction (dense layers with inputs up to 4095 or outputs up to 1025, spatial layers with an extent up to 130, up to 9 channels / filters, kernels 1..5, stride 1..4, padding 0..3, dilation 1..3), derivative compared at up to 40 input and 40 parameter coordinates chosen next to block boundaries (0, 1, 31..33, 63..65, ..., start of the last partial block, n-2, n-1) plus random ones. networks: depth 2..5, any mix of dense/conv/deconv/pool that fits, every third with one or two feedback blocks (1..3 loops, no skips; gradients compared per unrolled copy), all seven objectives; gradients taken from the hooked Network::backward, (every third case) from the parameter change of one learn() step with plain SGD, or (every fifth block of cases) from the hooked backward of a network object that has already been trained for 1..3 steps (oracle at the parameters read back from it); oracle = derivative of the objective value for AE/MSE/BCE/KL and for soft-max + cross-entropy, of <objective gradient, output> for MAE/RMSE/CE. Instances within 1e-3 of a ReLU kink / pool tie or with saturated sigmoid (pre > 6) are regenerated. Distinct = distinct configuration descriptors."
+        "layers: case i -> (kind in conv/deconv/dense/pool, activation, geometry from the covering walk over the 108 (kernel 1..3, stride 1..3, padding 0..3, dilation 1..3) tuples per axis, channels/filters 1..3, extents up to 7, repetition-free weights/inputs/upstream gradient in [-1.5,1.5], in every fourth block of cases with 30-40% of them set to exactly 0); the layer's public backward(u, x, pre) is compared entry by entry with the forward-mode dual-number derivative of <u, post(x; theta)> w.r.t. every input element and every weight/bias/kernel element (|g - d| <= 16 * de + 1e-5 * m: de = first-order bound on the deviation of a correct f32 evaluation incl. the effect of forward rounding on the derivative factors, m = the same derivative on absolute values); the input gradient must have the input's shape. large_layers: the same layer-level check on layers that are large in one direction (dense layers with inputs up to 4095 or outputs up to 1025, spatial layers with an extent up to 130, up to 9 channels / filters, kernels 1..5, stride 1..4, padding 0..3, dilation 1..3), derivative compared at up to 40 input and 40 parameter coordinates chosen next to block boundaries (0, 1, 31..33, 63..65, ..., start of the last partial block, n-2, n-1) plus random ones. networks: depth 2..5, any mix of dense/conv/deconv/pool that fits, every third with one or two feedback blocks (1..3 loops, no skips; gradients compared per unrolled copy), all seven objectives; gradients taken from the hooked Network::backward, (every third case) from the parameter change of one learn() step with plain SGD, or (every fifth block of cases) from the hooked backward of a network object that has already been trained for 1..3 steps (oracle at the parameters read back from it); oracle = derivative of the objective value for AE/MSE/BCE/KL and for soft-max + cross-entropy, of <objective gradient, output> for MAE/RMSE/CE. One sixth of the spatial network cases use inputs with flat regions (two values in runs): max-pool windows whose tied elements are the same local function of the parameters (equal value and equal directional derivative along a random direction) are kept - the maximum is differentiable there - all other ties are regenerated. Instances within 1e-3 of a ReLU kink / pool tie or with saturated sigmoid (pre > 6) are regenerated. Distinct = distinct configuration descriptors."
     }
     fn assumptions(&self) -> Vec<&'static str> {
         vec![
